@@ -49,8 +49,15 @@ func openReadSched(format string, b []byte, dict int, sched []int) (out []byte, 
 // openReadSchedAfter additionally keeps calling Read (up to four times) after the first error
 // and reports whether one of those calls announced a clean end of stream: an error must not turn
 // into a regular end for a caller that reads on.  (More data after an error is not judged.)
-func openReadSchedAfter(format string, b []byte, dict int, sched []int) (out []byte, ctorErr, readErr error, after string, pn *mon.Panic) {
+func openReadSchedAfter(format string, b []byte, dict int, sched []int, kind ...string) (out []byte, ctorErr, readErr error, after string, pn *mon.Panic) {
 	var r io.Reader
+	// what the reader is connected to: a *bytes.Reader, or one of mon.SourceKinds
+	var src io.Reader = bytes.NewReader(b)
+	if len(kind) > 0 && kind[0] != "" {
+		var release func()
+		src, release = mon.OpenSource(kind[0], b, uint64(len(b))*2654435761+uint64(dict))
+		defer release()
+	}
 	defer func() {
 		if readErr == nil || pn != nil || r == nil {
 			return
@@ -72,13 +79,13 @@ func openReadSchedAfter(format string, b []byte, dict int, sched []int) (out []b
 	pn = mon.Guard(func() {
 		switch format {
 		case "xz", "xz-multi":
-			r, ctorErr = xz.ReaderConfig{DictCap: 4096}.NewReader(bytes.NewReader(b))
+			r, ctorErr = xz.ReaderConfig{DictCap: 4096}.NewReader(src)
 		case "xz-single":
-			r, ctorErr = xz.ReaderConfig{DictCap: 4096, SingleStream: true}.NewReader(bytes.NewReader(b))
+			r, ctorErr = xz.ReaderConfig{DictCap: 4096, SingleStream: true}.NewReader(src)
 		case "lzma2":
-			r, ctorErr = lzma.Reader2Config{DictCap: dict}.NewReader2(bytes.NewReader(b))
+			r, ctorErr = lzma.Reader2Config{DictCap: dict}.NewReader2(src)
 		case "lzma":
-			r, ctorErr = lzma.ReaderConfig{DictCap: 4096}.NewReader(bytes.NewReader(b))
+			r, ctorErr = lzma.ReaderConfig{DictCap: 4096}.NewReader(src)
 		}
 		if ctorErr != nil {
 			return
@@ -103,10 +110,13 @@ func openReadSchedAfter(format string, b []byte, dict int, sched []int) (out []b
 			if l < 1 {
 				l = 1
 			}
-			p := make([]byte, l)
+			p := mon.GuardedBuf(l)
 			n, err := r.Read(p)
 			if n < 0 || n > l {
 				panic(fmt.Sprintf("Read with a buffer of %d bytes returned n=%d", l, n))
+			}
+			if !mon.GuardIntact(p) {
+				panic(fmt.Sprintf("Read with a buffer of %d bytes wrote behind the buffer (into its spare capacity, which is not the reader's)", l))
 			}
 			out = append(out, p[:n]...)
 			if err == io.EOF {
@@ -393,9 +403,28 @@ func checkC05(c *ev.Ctx) {
 		delivered := -1
 		var cerr, rerr error
 		var out []byte
-		for si, schedName := range []string{"readall", "one-byte", "exact-fill", "io.Copy"} {
+		// ... and a fifth time from one of the concrete source types of production (buffered
+		// readers of three sizes over a source that delivers in pieces, a real file, an
+		// io.Pipe), rotating with the cut position
+		srcKinds := []string{"bufio4096", "file", "bufio16", "pipe", "bufio-exact"}
+		for si, schedName := range []string{"readall", "one-byte", "exact-fill", "io.Copy", "source-kind"} {
 			var sched []int
+			kind := ""
 			switch si {
+			case 4:
+				// at every cut within 8 bytes behind a stream or padding boundary, elsewhere at
+				// every fifth cut
+				near := false
+				for d := 0; d <= 8; d++ {
+					if _, ok := s.Legal[j.cut-d]; ok {
+						near = true
+					}
+				}
+				if !near && j.cut%5 != 0 {
+					continue
+				}
+				kind = srcKinds[(j.cut+j.cut/5)%len(srcKinds)]
+				schedName = "source:" + kind
 			case 1:
 				sched = []int{1}
 			case 2:
@@ -408,7 +437,7 @@ func checkC05(c *ev.Ctx) {
 			}
 			var pn *mon.Panic
 			var after string
-			out, cerr, rerr, after, pn = openReadSchedAfter(s.Format, s.B[:j.cut], s.Dict, sched)
+			out, cerr, rerr, after, pn = openReadSchedAfter(s.Format, s.B[:j.cut], s.Dict, sched, kind)
 			if si == 0 {
 				delivered = len(out)
 			}
